@@ -43,6 +43,9 @@ type Point struct {
 	Custom    bool   `json:"custom_sections"`
 	Listeners string `json:"listeners"` // "" | "all" | "nil" (a factory is installed but returns no listener for any function)
 	CloseCtx  bool   `json:"close_on_context_done"`
+	// CancelAfter: every call gets its own context, cancelled after the call has returned (the
+	// `defer cancel()` idiom): the option is enabled and still never triggered while a guest runs
+	CancelAfter bool `json:"cancel_call_context_after_return,omitempty"`
 }
 
 func (p Point) differs() int {
@@ -225,6 +228,10 @@ func RunCase(c *Case) (msg string, labels []string) {
 		cfg := apply(baseCfg(c.Engine, feats, c.Limit), p)
 		o := opt
 		o.Ctx = ctxFor(p, c.Module, c.Lib, &calls)
+		o.CancelAfterCall = p.CancelAfter
+		if p.CancelAfter {
+			labels = append(labels, "call-contexts-cancelled-after-return")
+		}
 		ctx := context.Background()
 		switch p.Cache {
 		case "none":
@@ -317,6 +324,12 @@ var featChoices = []struct {
 }{{wasmgen.FeatV1, api.CoreFeaturesV1}, {wasmgen.FeatV2, api.CoreFeaturesV2}, {wasmgen.FeatAll, wz.AllFeatures}, {wasmgen.FeatAll, wz.AllFeatures}}
 
 func drawPoint(t *rapid.T) Point {
+	p := drawPoint0(t)
+	p.CancelAfter = p.CloseCtx && rapid.Bool().Draw(t, "cancelafter")
+	return p
+}
+
+func drawPoint0(t *rapid.T) Point {
 	return Point{
 		Cache:     rapid.SampledFrom([]string{"none", "none", "mem", "dir-cold", "dir-warm", "shared"}).Draw(t, "cache"),
 		CapMax:    rapid.Bool().Draw(t, "capmax"),
@@ -423,6 +436,19 @@ func TestReplay(t *testing.T) {
 	p := evid.ReplayPath()
 	if p == "" {
 		t.Skip()
+	}
+	var cc struct {
+		Conc *ConcCase `json:"conc"`
+	}
+	if _, err := evid.LoadReplay(p, &cc); err == nil && cc.Conc != nil {
+		// schedule dependent: a few attempts
+		for i := 0; i < 5; i++ {
+			if msg := RunConcCase(cc.Conc); msg != "" {
+				evid.Violation("replay", map[string]any{"conc": cc.Conc}, "%s", msg)
+				t.Fatal(msg)
+			}
+		}
+		return
 	}
 	var c Case
 	if _, err := evid.LoadReplay(p, &c); err != nil {
